@@ -224,7 +224,7 @@ class Gen:
         if c < 17:
             return ('mem', self.expr(depth - 1, vars_, funs, in_fun))
         if c < 19:
-            n = self.cur_delay if (self.cur_delay and not r.chance(1, 10)) else r.choice([1, 2, 3, 4, 6])
+            n = self.cur_delay if (self.cur_delay and r.chance(1, 2)) else r.choice([1, 2, 3, 4, 6])
             t = ('lit', r.range(-1, n + 1)) if r.chance(3, 4) else self.expr(1, vars_, funs, in_fun, True)
             return ('delay', n, self.expr(depth - 1, vars_, funs, in_fun), t)
         if in_fun:
@@ -460,7 +460,6 @@ def build_sides(ck):
 
 def classes_of(p):
     c = set()
-    if multi_delay_sizes(p): c.add("F3")
     return c
 
 
